@@ -13,6 +13,34 @@ FLAVOURS = {
     "dagrun": ["-dagrun"],
     "live": ["-live", "30", "-tail", "0"],
     "ff": ["-dyn", "-ff"],
+    # directed adversarial schedules (harness/cmd/sim/split.go): split votes up to the coin round, late witnesses,
+    # monologues, delayed delivery, refused forks; 4..7 validators
+    "split": ["-split", "-minn", "4"],
+    "splitdag": ["-split", "-dagrun", "-minn", "4"],
+    "splitlive": ["-split", "-live", "30", "-tail", "0", "-minn", "4"],
+    # the same schedules with a store-write fault inside ProcessDecidedRounds, armed on some nodes while an undecided round
+    # blocks decided ones: the write fails while a LATER round of the same call is processed; and the application of a
+    # minority of the nodes fails one commit callback (hx.App.FailNext)
+    "splitfaults": ["-split", "-faults", "-passfaults", "-appfaults", "-minn", "4"],
+    # quorum loss then recovery (stall.go); node 0 on a BadgerStore with cache 100 (undetermined backlog > cache)
+    "stall": ["-stall", "104", "-badgercache", "100", "-minn", "5"],
+    "stallmem": ["-stall", "104", "-live", "30", "-tail", "0", "-minn", "4"],
+    # > cache blocks, then valid signatures for blocks evicted from node 0's block cache (BadgerStore, cache 100)
+    "latesigs": ["-latesigs", "-advsigs", "-badgercache", "100", "-minn", "2"],
+    # a minority silent for good, node 0 on an InmemStore with cache 200, > 200 more events, then the fair suffix
+    "longsilent": ["-live", "30", "-tail", "0", "-inmemcache0", "200", "-longsilent", "260", "-minn", "4"],
+}
+
+# per flavour: (shards, histories per shard, max validators, steps) for the quick and the thorough tier
+SIZES = {
+    "split": ((16, 2, 7, 90), (16, 12, 7, 300)),
+    "splitdag": ((16, 1, 6, 90), (16, 6, 7, 200)),
+    "splitlive": ((16, 1, 7, 90), (16, 8, 7, 300)),
+    "splitfaults": ((16, 1, 7, 90), (16, 8, 7, 300)),
+    "stall": ((6, 1, 5, 100), (16, 3, 7, 100)),
+    "stallmem": ((8, 1, 7, 100), (16, 4, 9, 100)),
+    "latesigs": ((3, 1, 2, 100), (16, 2, 2, 100)),
+    "longsilent": ((8, 1, 4, 100), (16, 4, 6, 100)),
 }
 
 def _tool_fingerprint():
@@ -57,6 +85,8 @@ def run(ctx, flavour="static"):
         hist, steps = max(1, hist // 2), (steps * 3) // 4
         if tier == "thorough":
             FLAVOURS["dagrun"] = ["-dagrun", "-thorough"]
+    if flavour in SIZES:
+        shards, hist, maxn, steps = SIZES[flavour][1 if tier == "thorough" else 0]
     sim_args = ["-hist", hist, "-maxn", maxn, "-steps", steps] + FLAVOURS[flavour]
     jobs = [(i, seed * 1000 + i, sim_args, os.path.join(cdir, "shard%02d.txt" % i)) for i in range(shards)]
     with ThreadPoolExecutor(max_workers=16) as ex:
@@ -117,7 +147,41 @@ def coverage_from(res, rule_extra=""):
     sizes = {}
     for s in st:
         sizes[str(s.get("n"))] = sizes.get(str(s.get("n")), 0) + 1
+    def _dist(key):
+        v = sorted(s.get(key, 0) for s in st)
+        if not v:
+            return dict(min=0, median=0, max=0)
+        return dict(min=v[0], median=v[len(v) // 2], max=v[-1])
+    def _tot(key):
+        return sum(s.get(key, 0) for s in st)
+    fame = {k[len("a:fame-"):]: agg[k] for k in sorted(agg) if k.startswith("a:fame-d") and "decided" not in k}
+    distribution = dict(
+        rounds_per_history=_dist("mx:rounds"),
+        max_undecided_round_backlog=_dist("mx:pending-rounds"),
+        max_undetermined_events=_dist("mx:undetermined"),
+        max_events_behind_global_dag=_dist("mx:behind"),
+        max_fame_distance=_dist("mx:fame-distance"),
+        fame_decisions_by_distance=fame,
+        fame_decided_after_a_coin_round=_tot("a:fame-decided-after-coin-round"),
+        coin_round_votes=dict(middle_bit=_tot("a:coin-votes-middle-bit"), forced_by_supermajority=_tot("a:coin-votes-forced")),
+        actions_with_later_round_decided_before_earlier=_tot("a:later-round-decided-first"),
+        histories_with_later_round_decided_first=sum(1 for s in st if s.get("a:later-round-decided-first", 0) > 0),
+        histories_reaching_a_coin_round=sum(1 for s in st if s.get("mx:fame-distance", 0) > 4),
+        late_witnesses=_tot("a:late-witnesses"),
+        stale_parent_plays=_tot("a:split-stale-parent-plays"),
+        monologue_events=_tot("a:split-monologue-events"),
+        forks_attempted=_tot("a:fork-attempts"), forks_refused=_tot("a:fork-refused"),
+        round_received_rule_evaluations=_tot("a:rr-rule-checked"),
+        split_episodes=_tot("a:split-episodes"),
+        stall_events=_tot("a:stall-events"), late_signatures_for_evicted_blocks=_tot("a:latesigs-for-evicted-blocks"),
+        persistent_node_oracle_evaluations=_tot("a:persist-oracle-evaluations"),
+        persistent_node_frames_checked=_tot("a:persist-frames-checked"),
+        persistent_node_insert_errors=_tot("a:split-insert-error"),
+        pass_write_faults_armed=_tot("a:pass-fault-armed"), pass_write_faults_injected=_tot("a:pass-fault-injected"),
+        application_commit_failures=_tot("a:app-commit-failed"),
+    )
     return dict(
+        distribution=distribution,
         evaluations=res["cases"], distinct_nontrivial=nontrivial, histories=hist,
         rule="seeded random gossip schedules over real node.core objects (pull/push with sync-limit truncation, lost "
              "responses, skewed activity, silent minority, fair tail); every insertion is replayed on the extracted Coq model "
